@@ -297,20 +297,20 @@ Fixpoint grow_loop (fuel : nat) (m : mast) : mast :=
       else m
   end.
 
+Definition with_root (m : mast) (r : ml) (size : Z) : mast :=
+  {| m_root := r; m_height := m_height m; m_size := size;
+     m_grow := m_grow m; m_shrink := m_shrink m; m_bf := m_bf m |}.
+
+(* after the entry is placed: an added entry runs the grow loop and counts; a replaced one does not *)
+Definition finish_insert (m : mast) (r : mt * bool) : mast :=
+  if snd r then
+    let m1 := grow_loop 70 (with_root m (LNode (fst r)) (m_size m)) in
+    with_root m1 (m_root m1) (m_size m1 + 1)
+  else with_root m (LNode (fst r)) (m_size m).
+
 Definition mast_insert (m : mast) (k : sval) (v : V) : option mast :=
   let tl := Nat.min (klayer (m_bf m) k) (m_height m) in
-  match ins (m_height m - tl) k v (node_of (m_root m)) with
-  | None => None
-  | Some (n, false) =>
-      Some {| m_root := LNode n; m_height := m_height m; m_size := m_size m;
-              m_grow := m_grow m; m_shrink := m_shrink m; m_bf := m_bf m |}
-  | Some (n, true) =>
-      let m1 := grow_loop 70
-        {| m_root := LNode n; m_height := m_height m; m_size := m_size m;
-           m_grow := m_grow m; m_shrink := m_shrink m; m_bf := m_bf m |} in
-      Some {| m_root := m_root m1; m_height := m_height m1; m_size := m_size m1 + 1;
-              m_grow := m_grow m1; m_shrink := m_shrink m1; m_bf := m_bf m1 |}
-  end.
+  option_map (finish_insert m) (ins (m_height m - tl) k v (node_of (m_root m))).
 
 Definition mast_get (m : mast) (k : sval) : option V :=
   match m_root m with
@@ -345,13 +345,8 @@ Definition mast_delete (m : mast) (k : sval) : option mast :=
   | LNil => None
   | LNode n =>
       let tl := Nat.min (klayer (m_bf m) k) (m_height m) in
-      match del (m_height m - tl) k n with
-      | None => None
-      | Some n' =>
-          Some (shrink_loop 300
-            {| m_root := mk_link n'; m_height := m_height m; m_size := m_size m - 1;
-               m_grow := m_grow m; m_shrink := m_shrink m; m_bf := m_bf m |})
-      end
+      option_map (fun n' => shrink_loop 300 (with_root m (mk_link n') (m_size m - 1)))
+                 (del (m_height m - tl) k n)
   end.
 
 Definition mast_flat (m : mast) : list (sval * V) := flat_l (m_root m).
